@@ -4,6 +4,7 @@ package main
 // accounts, blocks with explicit header times and real signed transactions through DeliverTx.
 
 import (
+	txtypes "github.com/cosmos/cosmos-sdk/types/tx"
 	"encoding/json"
 	"fmt"
 	"os"
@@ -211,6 +212,7 @@ type TxSpec struct {
 	Mode     signing.SignMode
 	FeePayer string // explicit AuthInfo.Fee.Payer ("" = none)
 	FeeCoins sdk.Coins // when set, the whole fee (any denominations); Fee is then ignored
+	Tip      *txtypes.Tip // AuthInfo.Tip (accepted and ignored by SDK 0.47)
 }
 
 func (c *Chain) acctNumSeq(addr sdk.AccAddress) (uint64, uint64) {
@@ -252,6 +254,9 @@ func (c *Chain) BuildTx(spec TxSpec) (bz []byte, err error) {
 	b.SetGasLimit(gas)
 	if spec.FeePayer != "" {
 		b.SetFeePayer(sdk.MustAccAddressFromBech32(spec.FeePayer))
+	}
+	if spec.Tip != nil {
+		b.SetTip(spec.Tip)
 	}
 	mode := spec.Mode
 	if mode == signing.SignMode_SIGN_MODE_UNSPECIFIED {
